@@ -70,9 +70,10 @@ class _Shard:
         self.err_thread = None
         self.start_after = -1
         self.hang_killed = False
+        self.hung = set()
 
 
-def run(module, params, nshards=16, case_timeout=120, total_timeout=3000, libpath=None, hang_is_violation=False,
+def run(module, params, nshards=16, case_timeout=120, total_timeout=3000, libpath=None, hang_key=None,
         max_restarts=200, extra_env=None):
     """Runs `module.worker(ctx)` in nshards instrumented processes.  `params` must be JSON-serialisable."""
     res = Result()
@@ -145,9 +146,19 @@ def run(module, params, nshards=16, case_timeout=120, total_timeout=3000, libpat
         start(sh)
 
     active = set(range(nshards))
+    nhang_viol = [0]
     while active:
         time.sleep(0.05)
         now = time.time()
+        if nhang_viol[0] >= 3:
+            # confirmed hangs are violations already; do not spend hours confirming more of them
+            for i in list(active):
+                try:
+                    shards[i].proc.kill()
+                except OSError:
+                    pass
+            res.counters['stopped_early_after_hangs'] = 1
+            break
         if now - t0 > total_timeout:
             for i in list(active):
                 try:
@@ -185,12 +196,20 @@ def run(module, params, nshards=16, case_timeout=120, total_timeout=3000, libpat
             case = dict(index=sh.last_begin, info=sh.last_begin_info)
             if sh.hang_killed:
                 res.hangs += 1
-                if hang_is_violation:
-                    res.violations.append(dict(t='viol', key='hang:case', detail='no progress for %ds' % case_timeout,
-                                               case=case, shard=sh.idx, hang=True))
-                else:
-                    res.inconclusive.append('shard %d: case %r made no progress for %ds' % (sh.idx, sh.last_begin,
-                                                                                         case_timeout))
+                first_time = sh.last_begin is not None and sh.last_begin not in sh.hung
+                if first_time:
+                    # a loaded machine can stall a worker: run the same case once more before believing it
+                    sh.hung.add(sh.last_begin)
+                    sh.start_after = sh.last_begin - nshards
+                    sh.restarts += 1
+                    sh.last_begin = None
+                    start(sh)
+                    continue
+                nhang_viol[0] += 1
+                res.violations.append(dict(t='viol', key='hang:%s' % (hang_key or 'case'),
+                                           detail='the case in flight made no progress for %ds, twice; last stderr: %s'
+                                                  % (case_timeout, stderr[-300:]),
+                                           case=case, shard=sh.idx, hang=True))
             else:
                 res.crashes += 1
                 keys = sanitizer.parse_report(report + '\n' + stderr)
